@@ -707,8 +707,10 @@ theorem translated_filters_send_loop_is_runFrom (env : Env) (src : String) (fs :
     have hf := hp f (by simp)
     have ih' := fun d => ih (fun g hg => hp g (by simp [hg])) d
     rw [Gen.TrD.send_for1, runFrom]
-    have happ : (c16SendPrims env src).applyFilter f d = (f.call env d).ret := rfl
-    simp only [happ]
+    have happ : (c16SendPrims env src).applyFilter f d = Gen.TrD.M.pure (f.call env d).ret := rfl
+    have hpb : ∀ {α β : Type} (a : α) (k : α → Gen.TrD.M (List Data) Err Bool β),
+        Gen.TrD.M.bind (Gen.TrD.M.pure a) k = k a := fun _ _ => rfl
+    simp only [happ, hpb]
     cases hr : (f.call env d).ret with
     | mapping m =>
       simp only [c16SendPrims, Bool.false_eq_true, if_false, if_true]
